@@ -299,6 +299,7 @@ pub fn c05_depth(tier: &str) -> usize {
 
 pub fn c05_worker(tier: &str, k: usize, n: usize, ctx: &mut Ctx) {
   let thorough = tier == "thorough";
+  c05_long_sequences(ctx, k, n, if thorough { 300 } else { 96 });
   let depth = c05_depth(tier);
   let mut st = Striper::new(k, n);
   for inner in c05_inners(thorough) {
@@ -358,6 +359,70 @@ pub fn c05_worker(tier: &str, k: usize, n: usize, ctx: &mut Ctx) {
   }
 }
 
+/// Long mutator sequences. Sort implementations switch algorithms by length (insertion sort for
+/// short inputs), so stability and the cached order are also checked on a grid: 8 key patterns x
+/// every length 1..=max, each replacement with a unique content, observers interleaved.
+pub fn c05_long_sequences(ctx: &mut Ctx, k: usize, n: usize, max_len: usize) {
+  let inner = Term::orig("abcdefgh\nij", "long.js");
+  let text = model::model_text(&inner);
+  let mut st = Striper::new(k, n);
+  for pattern in 0..8usize {
+    for len in 1..=max_len {
+      for observe_every in [0usize, 7] {
+        if !st.mine() {
+          continue;
+        }
+        let mut muts: Vec<Repl> = Vec::new();
+        for i in 0..len {
+          let (s, e, enf) = match pattern {
+            0 => (0u32, 0u32, 1u8),                                  // all equal keys
+            1 => ((len - i) as u32 % 9, (len - i) as u32 % 9, 1),    // descending starts
+            2 => ((i % 2) as u32 * 3, (i % 2) as u32 * 3, 1),        // two alternating keys
+            3 => ((i * 5 % 7) as u32, (i * 5 % 7) as u32 + (i % 2) as u32, 1), // sawtooth, some ranges
+            4 => (2, 2, (i % 3) as u8),                              // equal position, rotating enforce
+            5 => ((i % 4) as u32, 9, 1),                             // overlapping to the end
+            6 => (if i % 5 == 0 { 1 } else { 6 }, if i % 5 == 0 { 1 } else { 6 }, ((i + 1) % 3) as u8),
+            _ => ((i as u32 * 7) % 12, (i as u32 * 7) % 12 + 1, 1), // beyond the end as well
+          };
+          muts.push(Repl { start: s, end: e, content: format!("<{i}>"), name: None, enforce: enf });
+        }
+        ctx.states += 1;
+        ctx.evaluations += 1;
+        ctx.transitions += len as u64;
+        crate::set_current_desc(format!("{{\"long_pattern\":{pattern},\"len\":{len}}}"));
+        let case = || json!({"inner": serde_json::to_value(&inner).unwrap(), "ops": muts.iter().map(|m| serde_json::to_value(RsOp::Mut(m.clone())).unwrap()).chain([json!("Source")]).collect::<Vec<_>>()});
+        let r = observe::guarded(|| {
+          let mut rs = ReplaceSource::new(inner.build());
+          for (i, m) in muts.iter().enumerate() {
+            apply_repl(&mut rs, m);
+            if observe_every > 0 && i % observe_every == observe_every - 1 {
+              let _ = rs.size();
+            }
+          }
+          (rs.source().into_owned(), rs.rope().to_string(), hash_of(&rs), hash_of(&fresh_rs(&inner, &muts)))
+        });
+        let want = model::splice_string(&text, &muts);
+        match r {
+          Err(e) => ctx.violation("panic", "long".into(), None, case, len * 10, e),
+          Ok((s, rope, h1, h2)) => {
+            if s != want {
+              ctx.violation("source_vs_model", "long sequence".into(), None, case, len * 10, format!("pattern {pattern}, {len} replacements (observer every {observe_every}): source()={s:?}, model={want:?}"));
+            }
+            if rope != want {
+              ctx.violation("rope_vs_model", "long sequence".into(), None, case, len * 10, format!("pattern {pattern}, {len} replacements: rope()={rope:?}, model={want:?}"));
+            }
+            if h1 != h2 {
+              ctx.violation("hash_depends_on_history", "long sequence".into(), None, case, len * 10, format!("pattern {pattern}, {len} replacements"));
+            }
+            ctx.nontrivial += 1;
+            ctx.traces_validated += 1;
+          }
+        }
+      }
+    }
+  }
+}
+
 pub fn c05_bounds(tier: &str) -> Value {
   let thorough = tier == "thorough";
   json!({
@@ -367,6 +432,7 @@ pub fn c05_bounds(tier: &str) -> Value {
     "mutators": rs_mutators("abc", thorough).len(),
     "observers": RS_OBSERVERS.len(),
     "mutator_alphabet_on_abc": serde_json::to_value(rs_mutators("abc", thorough)).unwrap(),
+    "long_sequences": format!("8 key patterns (all equal, descending, alternating, sawtooth, rotating enforce, overlapping, mixed, beyond the end) x every length 1..={} x observers never / every 7th push", if thorough { 300 } else { 96 }),
   })
 }
 
